@@ -287,4 +287,19 @@ def srcMapOk (m : SrcMap) : Bool :=
      (colsOf h keysHits).isSome && (colsOf l keysHolds).isSome && (colsOf b keysBpms).isSome
    | _, _, _ => false)
 
+/-- the source has its SV list, with the key columns, whenever both games have SVs -/
+def srcSvsOk (T : Tables) (c : Conv) (m : SrcMap) : Bool :=
+  if hasSvs T.mcs c.srcGame && hasSvs T.mcs c.tgtGame then
+    match m.lists.lookup "svs" with
+    | some s => (colsOf s keysSvs).isSome
+    | none => false
+  else true
+
+/-- no list of the source map holds a missing value, every column has full length -/
+def srcNoNan (m : SrcMap) : Bool := m.lists.all fun p => noNan p.2 && frameWF p.2
+
+/-- the hypotheses of the theorems about a whole conversion, on the source -/
+def srcOk (T : Tables) (c : Conv) (src : Src) : Bool :=
+  src.maps.all fun m => srcMapOk m && srcSvsOk T c m && srcNoNan m
+
 end Reamber.Convert
